@@ -106,6 +106,25 @@ func.func @f() -> () {
 """
 
 
+def conv_src(kh, kw, mirror, oh=16):
+    """the repository's convolution schedule with a kh x kw kernel (1 x 1: loops with a single trip nested inside the
+    loops over the rows); mirror: the weights are indexed backwards (kh-1-d5, kw-1-d6), a true convolution."""
+    ih, iw = oh + kh - 1, 16 + kw - 1
+    wy = f"((d5 * -1) + {kh - 1})" if mirror else "d5"
+    wx = f"((d6 * -1) + {kw - 1})" if mirror else "d6"
+    dims = "(d0, d1, d2, d3, d4, d5, d6, d7, d8, d9)"
+    return f"""
+func.func @f() -> () {{
+  %4 = memref.alloc() : memref<1x16x{ih}x{iw}xi8>
+  %5 = memref.alloc() : memref<16x16x{kh}x{kw}xi8>
+  %6 = memref.alloc() : memref<1x16x{oh}x16xi32>
+  "dart.schedule"(%4, %5, %6) <{{patterns = [affine_map<{dims} -> (d0, ((d4 * 8) + d9), (d2 + d5), (((d3 * 8) + d6) + d7))>, affine_map<{dims} -> (((d1 * 8) + d8), ((d4 * 8) + d9), {wy}, {wx})>, affine_map<{dims} -> (d0, ((d1 * 8) + d8), d2, ((d3 * 8) + d7))>], accelerator = "snax_gemmx", tiles = [[]], bounds = [1 : index, 2 : index, {oh} : index, 2 : index, 2 : index, {kh} : index, {kw} : index, 8 : index, 8 : index, 8 : index], operandSegmentSizes = array<i32: 2, 1>}}> ({{""" + BODY3 + f"""
+  }}) : (memref<1x16x{ih}x{iw}xi8>, memref<16x16x{kh}x{kw}xi8>, memref<1x16x{oh}x16xi32>) -> ()
+  func.return
+}}
+"""
+
+
 def run_layout(src, tiled, pre=()):
     from xdsl.parser import Parser
 
@@ -131,7 +150,7 @@ def case_layout(case):
         _, _, order, bnd, bias = case
         src, pre = gemm_schedule_src(order, dict(bnd), bias), ()
     elif kind == "conv":
-        src, pre = CONV_SRC, ()
+        src, pre = (conv_src(*case[2:]) if len(case) > 2 else CONV_SRC), ()
     elif kind == "existing":
         _, _, order, bnd, bias, which = case
         src, pre = gemm_schedule_src(order, dict(bnd), bias, existing=(which, "#tsl.tsl<[2, 8] -> (128, 8), [2, 8] -> (64, 1)>")), ()
@@ -265,6 +284,15 @@ def run(chk):
                         cases.append(("gemm", tiled, order, bnd, bias))
     for tiled in (True, False):
         cases.append(("conv", tiled))
+        # kernel sizes incl. 1 (single-trip loops inside multi-trip ones), mirrored weights (negative coefficients)
+        for kh, kw, mirror in ((1, 1, False), (3, 3, True), (1, 3, False), (3, 1, True), (2, 2, True), (1, 1, True), (2, 1, False)):
+            cases.append(("conv", tiled, kh, kw, mirror))
+        cases.append(("conv", tiled, 1, 1, False, 4))
+        # gemm loops with a single trip, at every depth of the loop nest
+        for order in (("m0", "n0", "m1", "k0"), ("m1", "m0", "n0", "k0"), ("m0", "m1", "k0", "n0"), ("n0", "k0", "m0", "m1")):
+            for one in order:
+                bnd = tuple((k, 1 if k == one else v) for k, v in dict(m0=2, m1=2, n0=2, k0=2).items())
+                cases.append(("gemm", tiled, order, bnd, None))
         for shp in ((16, 16, 16), (8, 8, 8), (32, 16, 24), (24, 40, 8)):
             for i8 in (False, True):
                 cases.append(("sched", tiled, shp, i8))
@@ -276,11 +304,11 @@ def run(chk):
         cases.append(("existing", tiled, ("m0", "n0", "k0"), (("m0", 2), ("n0", 2), ("k0", 2)), "n", 3))
         cases.append(("existing", tiled, ("n0", "m0", "k0"), (("m0", 2), ("n0", 2), ("k0", 2)), None, 2))
     if quick and len(cases) > 260:
-        keep = [c for c in cases if c[0] != "gemm"]
-        cases = keep + rnd.sample([c for c in cases if c[0] == "gemm"], 260 - len(keep))
+        keep = [c for c in cases if c[0] != "gemm" or 1 in dict(c[3]).values()]
+        cases = keep + rnd.sample([c for c in cases if c not in keep], max(0, 260 - len(keep)))
     if only in (None, "layout"):
         chk.add_results("chosen_layouts", pmap(case_layout, cases, chunks=2))
     if only in (None, "gran"):
         chk.add_results("ensure_access_granularity", pmap(case_granularity, [(r, w) for r in ("spatial", "temporal") for w in (8, 32)]))
-    chk.bounds = dict(schedules=len(cases), loop_orders="permutations of up to 5 temporal loops (sampled)", tile_bounds="2,3,4,8", widths="i8/i32")
+    chk.bounds = dict(schedules=len(cases), loop_orders="permutations of up to 5 temporal loops (sampled)", tile_bounds="1,2,3,4,8", widths="i8/i32", conv="kernels 1x1..3x3, forward and mirrored weights")
     chk.outside = ["element widths 16/64", "accelerators other than snax_gemmx", "dynamic shapes"]
